@@ -96,7 +96,8 @@ impl<'de> SeqAccess<'de> for &mut Src {
     }
 }
 
-const HINTS: [Option<usize>; 9] = [None, Some(0), Some(1), Some(3), Some(4095), Some(4096), Some(4097), Some(1 << 32), Some(usize::MAX)];
+const HINTS: [Option<usize>; 11] =
+    [None, Some(0), Some(1), Some(3), Some(4095), Some(4096), Some(4097), Some(1 << 16), Some(1 << 22), Some(1 << 32), Some(usize::MAX)];
 
 fn alloc_bound_map() -> usize {
     let m: M = M::with_capacity_and_hasher_in(4096, PlanBuild::default(), CheckAlloc);
